@@ -26,6 +26,9 @@ theorem searchMark_cons (x : Tok) (r : List Tok) (m : Nat) : searchMark (x :: r)
 theorem searchSeq_cons (x : Tok) (r : List Tok) (k : String) (ks : List String) :
     searchSeq (x :: r) (k :: ks) = (x.equalsStr k && searchSeq r ks) := rfl
 theorem searchSeq_nil (r : List Tok) : searchSeq r [] = true := by cases r <;> rfl
+theorem matchSeq_cons (x : Tok) (r : List Tok) (k : String) (ks : List String) :
+    matchSeq (x :: r) (k :: ks) = if x.equalsStr k then matchSeq r ks else .error .parse := rfl
+theorem matchSeq_nil (r : List Tok) : matchSeq r [] = .ok ((), r) := by cases r <;> rfl
 theorem srcEqUp_opTok (a b : String) : (opTok a).srcEqUp b = (up a == b) := by simp [Tok.srcEqUp, src_opTok]
 theorem srcEq_opTok (a b : String) : (opTok a).srcEq b = (a == b) := by simp [Tok.srcEq, src_opTok]
 theorem equalsStr_opTok (a b : String) : (opTok a).equalsStr b = (up a == up b) := by
@@ -56,7 +59,7 @@ theorem nameTok_has_paren (n : String) : (nameTok n).has PAREN = false := by sim
 /-- evaluate the keyword tests of a parser on a rendering whose head tokens are known -/
 macro "kw_simp" : tactic =>
   `(tactic| simp (config := { decide := true }) only [searchTwoUp_cons, searchThreeUp_cons, searchStrUp_cons, searchStr_cons,
-      searchMark_cons, searchSeq_cons, searchSeq_nil,
+      searchMark_cons, searchSeq_cons, searchSeq_nil, matchSeq_cons, matchSeq_nil,
       srcEqUp_opTok, srcEq_opTok, equalsStr_opTok, equalsStr_grp, srcEqUp_nameTok, srcEq_nameTok, equalsStr_nameTok, srcEqUp_grp, srcEq_grp,
       nameTok_has_name, nameTok_has_paren, grp_paren,
       List.isEmpty_cons, List.isEmpty_nil, Bool.and_eq_true, Bool.or_eq_true, false_and, true_and, and_true, and_false, or_false, false_or,
@@ -65,7 +68,7 @@ macro "kw_simp" : tactic =>
       moveStr, moveStrUp, moveThreeUp, moveTwoUp, matchKw, popSrc, src_opTok, src_srcTok, src_litTok, children_grp, popSplit])
 macro "kw_simp" "at" h:ident : tactic =>
   `(tactic| simp (config := { decide := true }) only [searchTwoUp_cons, searchThreeUp_cons, searchStrUp_cons, searchStr_cons,
-      searchMark_cons, searchSeq_cons, searchSeq_nil,
+      searchMark_cons, searchSeq_cons, searchSeq_nil, matchSeq_cons, matchSeq_nil,
       srcEqUp_opTok, srcEq_opTok, equalsStr_opTok, equalsStr_grp, srcEqUp_nameTok, srcEq_nameTok, equalsStr_nameTok, srcEqUp_grp, srcEq_grp,
       nameTok_has_name, nameTok_has_paren, grp_paren,
       List.isEmpty_cons, List.isEmpty_nil, Bool.and_eq_true, Bool.or_eq_true, false_and, true_and, and_true, and_false, or_false, false_or,
